@@ -33,6 +33,16 @@ CHECKS = {
    note="Trusted: Coq kernel, extraction, driver, harness; which text is a comment is the tokenizer's (decoys tested); the slicing of a chunk into parts at directive statements (_package_chunk) is covered by the parser correspondence (C13 harness) and the end-to-end TRACE, not by a theorem; REPORT_* directives are outside the property's quantifier (Scoped).",
    technique="Coq proof (refinement of an abstract state machine, induction over directives and parts) + differential correspondence (unit level exhaustive, end-to-end) + spec-vs-TRACE search",
    design="5/C04"),
+ 'C09': dict(
+   text="Coq theorems over the run-loop model (every raising site of DocTest.run is an oracle outcome: directive update, pre-import, compile, exec/eval, check, repr, traceback search) and the runner loop model: C09_return_never_raises (with on_error=return, for every outcome oracle that has a doctest frame and no SystemExit/KeyboardInterrupt, at every position, run returns a summary marked failed iff a failure was recorded), C09_compile_error_recorded, C09_directive_error_recorded, C09_exception_recorded, C09_failed_line_defined, C09_others_still_run, C09_abort_iff_escape. Tie to the code: fault matrix of 17 failure kinds x position x surrounding shape through DocTest.run and the extracted model; model-independent checks on the implementation: summary marked failed, repr_failure renders at verbosity 0..3 and names the exception type and the by-construction failing line, failed_lineno is that file line, on_error=raise records what it raises, doctest_module on a module with the bad doctest between two good ones reports 1 failed / 2 passed, import-failure module. Two genuine defects found this way were repaired (F9 unguarded fallback repr, F10 'impossible state' when rendering a want that normalizes to nothing).",
+   note="Trusted: Coq kernel, extraction, driver, harness; HasDoctestFrame is an oracle hypothesis (a doctest that closes the capture stream falsifies it: outside the fault list); repr_failure's text layout and traceback rewriting are not modelled (checked on the implementation only); pytest's INTERNALERROR path is not exercised in the quick tier.",
+   technique="Coq proof (ladder totality by case analysis per step + induction over parts; runner loop) + differential correspondence + fault-matrix search on the implementation",
+   design="5/C09"),
+ 'C10': dict(
+   text="Coq theorems over the Runner model (gathering lines 283-298, _run_examples tallies, __main__.main): C10_tallies_add_up, C10_summaries_exactly_one (every summary of the run-loop model is exactly one of passed/failed/skipped), C10_failed_list_exact (+C10_positions_spec), C10_exit_status (1 iff some doctest failed, else 0), C10_gather_all / C10_gather_all_once (every non-disabled doctest once, order kept), C10_gather_one (a named doctest runs alone, disabled or not), C10_list_names_all. Tie to the code: every module of <=2/3 doctests over 8 by-construction kinds + seeded modules of 3..8 doctests in function/method/google-block layouts x {all, list, every unique name, every bare callname, missing name} x verbosity: doctest_module's run_summary and __main__.main's return value vs the extracted model; on an exit-value disagreement the search runs python -m xdoctest on modules with 256/512 failing doctests (low 8 bits).",
+   note="Trusted: Coq kernel, extraction, driver, harness; per-doctest verdicts are by construction (decided by C02/C03); the zero-argument-function fallback, KeyboardInterrupt handling and 'dump' are outside this check; subprocess exit status only in the thorough tier unless a disagreement triggers the search.",
+   technique="Coq proof (list induction: counting, positions, filter uniqueness) + differential correspondence on generated modules + arithmetic-identity search",
+   design="5/C10"),
 }
 
 NOT_APPLICABLE = {}
